@@ -3430,10 +3430,12 @@ class SQLCompiler(Compiled):
             # bind_expression_template here because there are no
             # expressions to render.
 
+            # the empty set expression is a complete expression (for
+            # SQLite a subquery); it is not preceded by the VALUES keyword
+            # used for a list of tuples, same as in
+            # _literal_execute_expanding_parameter()
             if typ_dialect_impl._is_tuple_type:
-                replacement_expression = (
-                    "VALUES " if self.dialect.tuple_in_values else ""
-                ) + self.visit_empty_set_op_expr(
+                replacement_expression = self.visit_empty_set_op_expr(
                     parameter.type.types, parameter.expand_op
                 )
 
